@@ -1081,10 +1081,7 @@ class Pregex():
         pre = __class__._to_pregex(pre)
         if pre._get_type() == _Type.Empty:
             return self
-        if _re.search(_re.sub(r"\s", "", r"""
-            (?<!\\)(?:\\\\)*(?<!\()(?:\?|\*|\+|\{,\d+\}|\{\d+,\}|\{\d+,\d+\})|
-            (?<!\\)(?:\\\\)*\\\((?:\?|\*|\+|\{,\d+\}|\{\d+,\}|\{\d+,\d+\})
-        """), str(pre)) is not None:
+        if not __class__.__is_fixed_width(pre):
             raise _ex.NonFixedWidthPatternException(pre)
         return __class__(
             f"(?<={pre}){self._assert_conditional_group()}",
@@ -1112,10 +1109,7 @@ class Pregex():
         pre = __class__._to_pregex(pre)
         if pre._get_type() == _Type.Empty:
             return self
-        if _re.search(_re.sub(r"\s", "", r"""
-            (?<!\\)(?:\\\\)*(?<!\()(?:\?|\*|\+|\{,\d+\}|\{\d+,\}|\{\d+,\d+\})|
-            (?<!\\)(?:\\\\)*\\\((?:\?|\*|\+|\{,\d+\}|\{\d+,\}|\{\d+,\d+\})
-        """), str(pre)) is not None:
+        if not __class__.__is_fixed_width(pre):
             raise _ex.NonFixedWidthPatternException(pre)
         return __class__(
             f"(?<={pre}){self._assert_conditional_group()}(?={pre})",
@@ -1162,10 +1156,7 @@ class Pregex():
         pre = __class__._to_pregex(pre)
         if pre._get_type() == _Type.Empty:
             raise _ex.EmptyNegativeAssertionException()
-        if _re.search(_re.sub(r"\s", "", r"""
-            (?<!\\)(?:\\\\)*(?<!\()(?:\?|\*|\+|\{,\d+\}|\{\d+,\}|\{\d+,\d+\})|
-            (?<!\\)(?:\\\\)*\\\((?:\?|\*|\+|\{,\d+\}|\{\d+,\}|\{\d+,\d+\})
-        """), str(pre)) is not None:
+        if not __class__.__is_fixed_width(pre):
             raise _ex.NonFixedWidthPatternException(pre)
         pattern = f"(?<!{pre}){self._assert_conditional_group()}"
         return __class__(pattern, escape=False)
@@ -1191,10 +1182,7 @@ class Pregex():
         pre = __class__._to_pregex(pre)
         if pre._get_type() == _Type.Empty:
             raise _ex.EmptyNegativeAssertionException()
-        if _re.search(_re.sub(r"\s", "", r"""
-            (?<!\\)(?:\\\\)*(?<!\()(?:\?|\*|\+|\{,\d+\}|\{\d+,\}|\{\d+,\d+\})|
-            (?<!\\)(?:\\\\)*\\\((?:\?|\*|\+|\{,\d+\}|\{\d+,\}|\{\d+,\d+\})
-        """), str(pre)) is not None:
+        if not __class__.__is_fixed_width(pre):
             raise _ex.NonFixedWidthPatternException(pre)
         pattern = f"(?<!{pre}){self._assert_conditional_group()}(?!{pre})"
         return __class__(pattern, escape=False)
@@ -1381,6 +1369,21 @@ class Pregex():
         Returns the value of this instance's "group-on-assertion" rule.
         '''
         return __class__.__groupping_rules[self.__type][2]
+
+
+    @staticmethod
+    def __is_fixed_width(pre: 'Pregex') -> bool:
+        '''
+        Returns ``True`` if the provided pattern has a fixed width, that is, \
+        if it can serve as the assertion pattern of a lookbehind assertion.
+
+        :param Pregex pre: The pattern that is to be examined.
+        '''
+        try:
+            _re.compile(f"(?<={pre})", flags=__class__.__flags)
+        except _re.error as e:
+            return "fixed-width" not in str(e)
+        return True
 
 
     def __iterate_match_objects(self, source: str, is_path: bool) -> _Iterator[_re.Match]:
